@@ -36,10 +36,9 @@ class Lognormal(Distribution):
 
     @property
     def _normal(self):
-        if not np.all(self._Gaussian.mean == self.mean):
-            self._Gaussian.mean = self.mean
-        if not np.all(self._Gaussian.cov == self.cov):
-            self._Gaussian.cov = self.cov 
+        if not np.all(self._Gaussian.mean == self.mean) or not np.all(self._Gaussian.cov == self.cov):
+            # Rebuilt (not updated in place), since the new values may change the dimension
+            self._Gaussian = Gaussian(self.mean, self.cov)
         return self._Gaussian
 
     @_normal.setter
